@@ -194,7 +194,7 @@ package convert
 // The connect request puts the interval and timeout on the wire in whole seconds (rounded down),
 // and the peer's converter reads them back as that many seconds.
 //@ lemma connectRequestWholeSeconds
-//@   props C15
+//@   props C15 C11
 //@   forall m *message.ConnectRequest
 //@   requires m != nil && 0 <= m.PingInterval && m.PingInterval < 4294967296000000000 && 0 <= m.PingTimeout && m.PingTimeout < 4294967296000000000
 //@   let p, e1 = WireToProto(m)
@@ -237,3 +237,18 @@ package convert
 //@   let m = ToBaseTime(p)
 //@   let p2 = ToBaseTimeProto(m)
 //@   ensures p2 != nil && p2.BaseTime == p.BaseTime && p2.SessionId == p.SessionId && p2.Name == p.Name
+
+// ---------------------------------------------------------------- C12: decoded data-id collections
+// A decoded alias table or data-id list never contains a nil data id (an entry whose value is
+// absent on the wire is a nil dereference that the codec's recover guard turns into an error), and
+// it has exactly the keys / the length of its wire form: a message that reaches the application
+// can be walked and encoded again.
+//@ func toDataIDAliases
+//@   props C12 C11
+//@   ensures result != nil && forall(k, uint32, imp(has(result, k), result[k] != nil && has(in, k) && result[k].Name == in[k].Name && result[k].Type == in[k].Type))
+//@   ensures forall(k, uint32, imp(has(in, k), has(result, k)))
+//@   loop 1 invariant res != nil && fresh(res) && forall(k, uint32, imp(has(res, k), res[k] != nil && has(in, k) && res[k].Name == in[k].Name && res[k].Type == in[k].Type)) && forall(k, uint32, imp(visited(k), has(res, k)))
+//@ func toDataIDs
+//@   props C12 C11
+//@   ensures len(result) == len(in) && forall(i, int, imp(0 <= i && i < len(result), result[i] != nil && result[i].Name == in[i].Name && result[i].Type == in[i].Type))
+//@   loop 1 invariant fresh(res) && len(res) == rangeindex + 1 && rangeindex < len(in) && forall(i, int, imp(0 <= i && i < len(res), res[i] != nil && res[i].Name == in[i].Name && res[i].Type == in[i].Type))
